@@ -3,7 +3,7 @@
    by the multiset of points; distances are invariant under translations and orthogonal maps, increment terms
    under adding a constant, and scale with the square of a factor after normalisation. *)
 From Coq Require Import Reals ZArith List Bool Arith Lia Lra Permutation Sorted.
-From GS Require Import Num Loops Cellwise RInst Estimator_gen C15_VarioSpec C08_Math C09_Lists C09_Removal.
+From GS Require Import Num Loops Cellwise RInst Estimator_gen C15_VarioSpec C08_Math C09_Lists C09_Removal C09_Model.
 From GS Require C12_Mat.
 Import ListNotations.
 Open Scope R_scope.
@@ -419,5 +419,38 @@ Theorem geo_scale_units dist f est edges n i s : 0 < s ->
   bin_acc O dist f est (map (fun e => e / s) edges) n i = bin_acc O (fun j k => dist j k * s) f est edges n i.
 Proof.
   intros Hs. unfold bin_acc. apply fold_left_ext_in. intros [j k] st _. simpl. now rewrite in_bin_units.
+Qed.
+(* ---------- directions: the normalised direction has unit length; ang2dir returns unit vectors (2-D, 3-D) *)
+Lemma fold_sq_Rsum (v : list R) a : fold_left (fun s x => nadd O s (nmul O x x)) v a = a + Rsum (map (fun x => x * x) v).
+Proof. revert a; induction v as [|x v IH]; intros a; simpl; [lra|]. rewrite IH. cbn [nadd nmul Rops]. lra. Qed.
+Lemma vnorm_R v : vnorm O v = sqrt (Rsum (map (fun x => x * x) v)).
+Proof. unfold vnorm. rewrite fold_sq_Rsum. cbn [nsqrt n0 Rops]. f_equal. lra. Qed.
+Lemma Rsum_sq_nonneg (v : list R) : 0 <= Rsum (map (fun x => x * x) v).
+Proof. induction v; simpl; [lra|]. nra. Qed.
+
+Theorem normalize_dir_unit v : vnorm O v <> 0 -> vnorm O (normalize_dir O v) = 1.
+Proof.
+  intros Hn. unfold normalize_dir. rewrite vnorm_R, map_map. cbn [ndiv Rops].
+  set (N := vnorm O v) in *. set (S := Rsum (map (fun x => x * x) v)).
+  assert (HS : 0 <= S) by apply Rsum_sq_nonneg.
+  assert (HN : N * N = S). { unfold N. rewrite vnorm_R. now apply sqrt_sqrt. }
+  rewrite (map_ext _ (fun x => / (N * N) * (x * x))) by (intros x; field; exact Hn).
+  rewrite <- (map_map (fun x => x * x) (Rmult (/ (N * N)))), Rsum_scal. fold S. rewrite HN.
+  rewrite Rinv_l; [apply sqrt_1|]. intro E. apply Hn. unfold N. rewrite vnorm_R. fold S. rewrite E. apply sqrt_0.
+Qed.
+
+Theorem ang2dir_unit_2d a : vnorm O (ang2dir_row O 2 [a]) = 1.
+Proof.
+  rewrite vnorm_R. unfold ang2dir_row, prod_sin. simpl. cbn [nmul ncos nsin n1 Rops]. unfold aget. simpl.
+  replace (1 * cos a * (1 * cos a) + (1 * sin a * (1 * sin a) + 0)) with (sin a * sin a + cos a * cos a) by ring.
+  pose proof (sin2_cos2 a) as H. unfold Rsqr in H. rewrite H. apply sqrt_1.
+Qed.
+
+Theorem ang2dir_unit_3d a b : vnorm O (ang2dir_row O 3 [a; b]) = 1.
+Proof.
+  rewrite vnorm_R. unfold ang2dir_row, prod_sin. simpl. cbn [nmul ncos nsin n1 Rops]. unfold aget. simpl.
+  pose proof (sin2_cos2 a) as Ha. pose proof (sin2_cos2 b) as Hb. unfold Rsqr in *.
+  match goal with |- sqrt ?x = 1 => replace x with ((sin a * sin a + cos a * cos a) * (sin b * sin b) + cos b * cos b) by ring end.
+  rewrite Ha, Rmult_1_l, Hb. apply sqrt_1.
 Qed.
 End Inv.
